@@ -7,7 +7,8 @@
 // TODO: When this is used in more places remove this and refine the interface.
 #![allow(dead_code)]
 
-use crate::GDErrorKind::{HostLookup, InvalidInput, PacketReceive, PacketSend, ProtocolFormat};
+use crate::GDErrorKind::{HostLookup, InvalidInput, PacketReceive, PacketSend, ProtocolFormat, SocketConnect};
+use crate::GDError;
 use crate::{GDResult, TimeoutSettings};
 
 use std::io::Read;
@@ -307,7 +308,7 @@ impl HttpClient {
         let request = self.make_request(method, headers);
 
         // Send the request.
-        let http_response = request.call().map_err(|e| PacketSend.context(e))?;
+        let http_response = request.call().map_err(Self::request_error)?;
 
         let length = if let Some(length) = http_response.header("Content-Length") {
             length
@@ -329,6 +330,15 @@ impl HttpClient {
         Ok(buffer)
     }
 
+    /// The error kind of the step of a request that failed.
+    fn request_error(error: ureq::Error) -> GDError {
+        match error.kind() {
+            ureq::ErrorKind::Dns => HostLookup.context(error),
+            ureq::ErrorKind::ConnectionFailed => SocketConnect.context(error),
+            _ => PacketSend.context(error),
+        }
+    }
+
     /// Parse the body of a response as JSON, reading at most [MAX_RESPONSE_LENGTH] decoded bytes.
     fn parse_json_response<T: DeserializeOwned>(http_response: ureq::Response) -> GDResult<T> {
         serde_json::from_reader(
@@ -336,7 +346,13 @@ impl HttpClient {
                 .into_reader()
                 .take(MAX_RESPONSE_LENGTH as u64),
         )
-        .map_err(|e| ProtocolFormat.context(e))
+        .map_err(|e| {
+            // A body that stops arriving (timeout, connection lost) is not a malformed body
+            match e.io_error_kind() {
+                Some(_) => PacketReceive.context(e),
+                None => ProtocolFormat.context(e),
+            }
+        })
     }
 
     /// Send a HTTP request without any data and parse the JSON response.
@@ -354,7 +370,7 @@ impl HttpClient {
         // Send the request and parse the response as JSON.
         request
             .call()
-            .map_err(|e| PacketSend.context(e))
+            .map_err(Self::request_error)
             .and_then(Self::parse_json_response)
     }
 
@@ -372,7 +388,7 @@ impl HttpClient {
 
         request
             .send_json(data)
-            .map_err(|e| PacketSend.context(e))
+            .map_err(Self::request_error)
             .and_then(Self::parse_json_response)
     }
 
@@ -390,7 +406,7 @@ impl HttpClient {
 
         request
             .send_form(data)
-            .map_err(|e| PacketSend.context(e))
+            .map_err(Self::request_error)
             .and_then(Self::parse_json_response)
     }
 }
